@@ -8,6 +8,7 @@ import (
 	"encoding/xml"
 
 	"mellium.im/xmlstream"
+	"mellium.im/xmpp/internal/attr"
 	"mellium.im/xmpp/jid"
 	"mellium.im/xmpp/mux"
 	"mellium.im/xmpp/stanza"
@@ -67,14 +68,26 @@ func (h Handler) HandleIQ(iq stanza.IQ, r xmlstream.TokenReadEncoder, start *xml
 	iter := xmlstream.NewIter(r)
 	var found bool
 	for iter.Next() {
+		itemStart, child := iter.Current()
+		// Children that are not elements (eg. whitespace) are not items.
+		if itemStart == nil {
+			continue
+		}
 		found = true
-		itemStart, r := iter.Current()
-		jstr := itemStart.Attr[0].Value
-		j := jid.MustParse(jstr)
+		_, jstr := attr.Get(itemStart.Attr, "jid")
+		j, err := jid.Parse(jstr)
+		if err != nil {
+			// Refuse the request, but do not tear down the stream over it.
+			_, err = xmlstream.Copy(r, iq.Error(stanza.Error{
+				Type:      stanza.Modify,
+				Condition: stanza.JIDMalformed,
+			}))
+			return err
+		}
 		switch start.Name.Local {
 		case "block":
 			item := Item{}
-			d := xml.NewTokenDecoder(xmlstream.MultiReader(xmlstream.Token(*itemStart), r))
+			d := xml.NewTokenDecoder(xmlstream.MultiReader(xmlstream.Token(*itemStart), child))
 			if err := d.Decode(&item); err != nil {
 				return err
 			}
